@@ -77,7 +77,11 @@ inline void install_terminate() {
 // ---------------------------------------------------------------- deterministic PRNG (splitmix64)
 struct Rng {
   uint64_t s;
-  explicit Rng(uint64_t seed) : s(seed * 0x9E3779B97F4A7C15ULL + 0x1234567ULL) {}
+  // the seed is hashed first: with s = seed*phi + c the streams of seeds n and n+1 were the same sequence shifted by one
+  explicit Rng(uint64_t seed) {
+    uint64_t z = seed + 0x9E3779B97F4A7C15ULL; z = (z ^ (z >> 30)) * 0xBF58476D1CE4E5B9ULL; z = (z ^ (z >> 27)) * 0x94D049BB133111EBULL;
+    s = (z ^ (z >> 31)) + 0x1234567ULL;
+  }
   uint64_t next() { uint64_t z = (s += 0x9E3779B97F4A7C15ULL); z = (z ^ (z >> 30)) * 0xBF58476D1CE4E5B9ULL; z = (z ^ (z >> 27)) * 0x94D049BB133111EBULL; return z ^ (z >> 31); }
   int range(int lo, int hi) { return lo + (int)(next() % (uint64_t)(hi - lo + 1)); }  // inclusive
   bool coin() { return next() & 1; }
